@@ -385,6 +385,38 @@ def systematic_forms():
     return out
 
 
+ITEM_SHAPES = [
+    # legal oddities of the item itself (nothing inside #[educe(..)]): empty where-clauses, empty / trailing-comma generics,
+    # empty bounds, trailing `+`, unit / empty-braced / empty-tuple structs, empty enums, restricted visibilities
+    "struct S<T> where {{ {f}a: T, b: u8 }}", "struct S<T>({f}T, u8) where;", "enum E<T> where {{ {v}V({f}T, u8), W }}",
+    "struct S<T> where T: {{ {f}a: T, b: u8 }}", "struct S<T> where T:, {{ {f}a: T, b: u8 }}", "struct S<'a, T> where 'a:, T: 'a, {{ {f}a: &'a T, b: u8 }}",
+    "struct S<T> where for<> T: Sized {{ {f}a: T, b: u8 }}", "struct S<> {{ {f}a: u8, b: u8 }}", "struct S<T,> {{ {f}a: T, b: u8 }}",
+    "struct S<T: ?Sized +> {{ b: u8, {f}a: T }}", "struct S<T: (Sized)> {{ {f}a: T, b: u8 }}", "struct S<T: Sized + , const N: usize,> {{ {f}a: [T; N], b: u8 }}",
+    "struct S;", "struct S {{}}", "struct S();", "struct S<T>(::core::marker::PhantomData<T>);", "enum E {{}}", "enum E<T> {{ {v}V({f}T,), }}",
+    "pub(crate) struct S {{ pub(crate) {f}a: u8, pub(self) b: u8 }}", "pub(in crate) enum E {{ {v}V {{ {f}r#type: u8, }}, }}",
+    "union U<T: Copy> where {{ {f}a: T, b: u8 }}", "union U<> {{ {f}a: u8, b: u8, }}", "struct S<T> where T: Sized, {{ {f}a: T, }}",
+    "enum E<T> where T: Sized {{ {v}V = 1, }}", "enum E {{ {v}A = 1, B = 2, }}", "struct S<'a,> where 'a: 'a {{ {f}a: &'a u8 }}",
+]
+
+
+def item_syntax_forms():
+    out = []
+    n = 0
+    for t in ALLT:
+        plain = "Into(u8)" if t == "Into" else t
+        partners = {"Eq": "PartialEq, ", "PartialOrd": "PartialEq, ", "Ord": "PartialEq, Eq, PartialOrd, ", "Copy": "Clone, ", "DerefMut": "Deref, "}.get(t, "")
+        fa = {"Deref": "#[educe(Deref)] ", "DerefMut": "#[educe(Deref, DerefMut)] ", "Into": "#[educe(Into(u8))] "}.get(t, "")
+        va = "#[educe(Default)] " if t == "Default" else ""
+        for shape in ITEM_SHAPES:
+            uns = "(unsafe)" if shape.startswith("union") and t in ("Debug", "PartialEq", "Hash") else ""
+            body = shape.format(f=fa, v=va)
+            if shape.startswith("union") and t == "Default":
+                body = body.replace("a: ", "#[educe(Default)] a: ", 1)
+            out.append(("i%d" % n, "#[derive(Educe)] #[educe(%s%s%s)] %s" % (partners, plain, uns, body)))
+            n += 1
+    return out
+
+
 def rank_edge_inputs():
     """explicit ranks that coincide with another field's default rank (isize::MIN + declaration index), and extremes"""
     out = []
@@ -429,7 +461,8 @@ def gen_inputs(seed, n):
                                                                      max_variants=3))
         base.append(S.render(td, rng, extras=False).replace("::educe::Educe", "Educe"))
     out = [("h%d" % i, t) for i, t in enumerate(HAND)] + [("h" + cid, t) for cid, t in systematic_forms()] + \
-        [("h" + cid, t) for cid, t in rank_edge_inputs()] + [("h" + cid, t) for cid, t in unicode_forms()]
+        [("h" + cid, t) for cid, t in rank_edge_inputs()] + [("h" + cid, t) for cid, t in unicode_forms()] + \
+        [("h" + cid, t) for cid, t in item_syntax_forms()]
     for i in range(n):
         rng = rng_for(seed, PROP, "mut", i)
         out.append(("m%d" % i, mutate_text(rng, rng.choice(base))))
